@@ -275,7 +275,7 @@ def check_C15(tier, replay=None):
 
 # ------------------------------------------------------------------------- C02
 
-MEMBER_DEVS = ("D08", "D09", "D10", "D11", "D12", "D13", "D14", "D23a")
+MEMBER_DEVS = ("D08", "D09", "D10", "D11", "D12", "D13", "D14", "D23a", "D23c")
 
 
 def check_C02(tier, replay=None):
@@ -316,7 +316,19 @@ def check_C10(tier, replay=None):
                   ["concretiser, syn-based abstraction", "TLC", "URI vocabulary with abbreviation bases in MC_C10"])
 
 
-CHECKS = {"C10": check_C10, "C08": check_C08, "C11": check_C11, "C06": check_C06, "C15": check_C15, "C02": check_C02}
+# ------------------------------------------------------------------------- C09
+
+def check_C09(tier, replay=None):
+    R = Result("C09", tier)
+    runs = [("MC_C09", {})]
+    std_flow(R, "MC_C09", runs, "Trace_Out", {"P": '"C09"'}, MEMBER_DEVS, ["Agreement", "Distinguishes", "Emit"])
+    R.extra["exhaustive"] = True
+    return finish(R, "model_checking",
+                  "schema sets in which the local name Thing is reused across two namespaces (complex type + global element in each, distinctive members), across kinds (local element and attribute of that name ahead of / behind everything) and with a builtin (user type called date); a referring type uses type=, ref= and base= with the near or the far prefix, before or after the declarations: every combination is one TLC state (Agreement: look-up = Resolve), generated by the real code; TLC resolves the type path of every field of the emitted structs and compares the struct it denotes with Schema!Resolve",
+                  ["concretiser, syn-based abstraction, TLC-side resolution of type paths", "TLC"])
+
+
+CHECKS = {"C09": check_C09, "C10": check_C10, "C08": check_C08, "C11": check_C11, "C06": check_C06, "C15": check_C15, "C02": check_C02}
 
 
 def main(argv):
